@@ -5,7 +5,7 @@
    outside this list, binary operators and label matchers are covered by the differential harness only. *)
 From Coq Require Import String.
 From Coq Require Import QArith ZArith List Bool Sorted Permutation.
-From OG Require Import C18.Model C18.Model2 C18.Model3 C18.ProofsA C18.ProofsB C18.ProofsC C18.ProofsD C18.ProofsE C18.ProofsF C18.ProofsG C18.ProofsH.
+From OG Require Import C18.Model C18.Model2 C18.Model3 C18.Model4 C18.ProofsA C18.ProofsB C18.ProofsC C18.ProofsD C18.ProofsE C18.ProofsF C18.ProofsG C18.ProofsH C18.ProofsI.
 Import ListNotations.
 Open Scope Q_scope.
 
@@ -188,6 +188,52 @@ Example C18_example_groups :
      ([("__name__", "m"); ("instance", "a"); ("job", "y")]%string, 4)])
   = [[("job", "x")]; [("job", "y")]]%string.
 Proof. reflexivity. Qed.
+
+(* ---- staleness markers (samples are option-valued; None = marker) ---- *)
+
+(* the range-vector selector drops the markers; dropping commutes with taking the window *)
+Theorem C18_stale_window_commutes : forall t range offset l,
+  window t range offset (drop_stale l) = range_select t range offset l.
+Proof. exact window_drop_stale. Qed.
+(* REPAIRED REDUCER PROTOCOL, generic: a reducer whose split form equals its whole-window form for every cut keeps doing
+   so when the records are filtered one by one - also when a record holds nothing but markers and becomes EMPTY *)
+Theorem C18_stale_repaired_protocol : forall (A : Type) (R : option A -> option A -> Prop)
+  (split : list (list sample) -> option A) (spec : list sample -> option A),
+  (forall cut, R (split cut) (spec (concat cut))) ->
+  forall cut, R (stale_protocol_repaired split cut) (spec (drop_stale (concat cut))).
+Proof. exact @stale_repaired_split. Qed.
+Theorem C18_stale_count_over_time : forall cut,
+  oQeq (stale_protocol_repaired impl_count_over_time cut) (spec_count_over_time (drop_stale (concat cut))).
+Proof. exact stale_count_over_time. Qed.
+Theorem C18_stale_avg_over_time : forall cut,
+  oQeq (stale_protocol_repaired impl_avg_over_time cut) (spec_avg_over_time (drop_stale (concat cut))).
+Proof. exact stale_avg_over_time. Qed.
+Theorem C18_stale_quantile_over_time : forall q cut,
+  stale_protocol_repaired (impl_quantile_split q) cut = spec_quantile_over_time q (drop_stale (concat cut)).
+Proof. exact stale_quantile_over_time. Qed.
+Theorem C18_stale_changes_resets : forall differs cut,
+  stale_protocol_repaired (impl_count_pairs_split differs) cut = spec_count_pairs differs (drop_stale (concat cut)).
+Proof. exact stale_changes_resets. Qed.
+(* instant selector: the answer is a real sample of the look-back window; a marker as newest sample hides the series; a
+   real sample after the marker brings it back *)
+Theorem C18_instant_select_stale_in_lookback : forall t offset l s,
+  instant_select_stale t offset l = Some s ->
+  In (fst s, Some (snd s)) l /\ (t - offset - lookback <= fst s <= t - offset)%Z.
+Proof. exact instant_select_stale_spec. Qed.
+Theorem C18_instant_select_marker_hides : forall t offset l tm,
+  (t - offset - lookback <= tm <= t - offset)%Z -> instant_select_stale t offset (l ++ [(tm, None)]) = None.
+Proof. exact instant_select_marker_hides. Qed.
+Theorem C18_instant_select_after_marker : forall t offset l tm v,
+  (t - offset - lookback <= tm <= t - offset)%Z -> instant_select_stale t offset (l ++ [(tm, Some v)]) = Some (tm, v).
+Proof. exact instant_select_after_marker. Qed.
+Print Assumptions C18_stale_repaired_protocol.
+Print Assumptions C18_instant_select_marker_hides.
+Example C18_example_stale :
+  stale_protocol_repaired impl_count_over_time wit_stale_cut = Some 2 /\
+  spec_count_over_time (drop_stale (concat wit_stale_cut)) = Some 2 /\
+  instant_select_stale 100 0 (concat wit_stale_cut) = None /\
+  instant_select_stale 50 0 (concat wit_stale_cut) = Some (30%Z, 2).
+Proof. vm_compute. repeat split. Qed.
 
 (* ---- binary operators and one-to-one vector matching ---- *)
 
